@@ -1114,7 +1114,7 @@ class Engine(object):
         self.abstracted.add("abstracted call: %s" % (txt if len(txt) < 140 else txt[:137] + "..."))
         for a in argvals:
             if isinstance(a, VRef):
-                self.havoc_obj(a, st, "arg")
+                self.havoc_obj(a, st, "arg", kind_hint="opaque")
                 st.notes.append("imprecise: mutable object passed to abstracted call `%s` havocked" % txt[:60])
         return VOpaque(note=txt[:60])
 
